@@ -1234,6 +1234,19 @@ pub fn generate(prop: &str, rng: &mut Rng, tier: Tier) -> FesProgram {
         let pos = rng.usize(ops.len());
         ops.insert(pos, FesOp::Add { pat: Pat::MegaFar, a: rng.below(t_ns.saturating_mul(3_000_000).max(1)) });
     }
+    // now and then one bucket list grows long (hundreds of pending events in very few buckets) and then receives events
+    // that belong at its very front, in its middle and at its end
+    if (prop == "C01" || prop == "C03") && rng.chance(1, 40) {
+        let mut pre: Vec<FesOp> = Vec::new();
+        for _ in 0..260 + rng.usize(200) {
+            pre.push(FesOp::Add { pat: Pat::Delta, a: 1 + rng.below(t_ns.saturating_mul(3).max(2)) });
+        }
+        for _ in 0..1 + rng.small(6) {
+            pre.push(FesOp::Add { pat: rng.pick(&[Pat::Now, Pat::Now, Pat::Delta, Pat::Tie]).clone(), a: rng.below(t_ns.max(2)) });
+        }
+        pre.extend(ops.drain(..));
+        ops = pre;
+    }
     // now and then events scheduled at Duration::MAX ("never"): they are cancelled or dropped with the queue
     if (prop == "C01" || prop == "C15") && rng.chance(1, 10) {
         for _ in 0..1 + rng.small(2) {
